@@ -250,7 +250,12 @@ func splitFlagsFromArgs(all []string) (flags, args []string) {
 		if !strings.HasPrefix(arg, "-") {
 			return all[:i:i], all[i:]
 		}
-		if booleanFlags[arg] || strings.Contains(arg, "=") {
+		// The go command treats "--name" like "-name".
+		name := arg
+		if strings.HasPrefix(name, "--") {
+			name = name[1:]
+		}
+		if booleanFlags[name] || strings.Contains(arg, "=") {
 			// Either "-bool" or "-name=value".
 			continue
 		}
